@@ -3,12 +3,12 @@
 From SC Require Import Lib.Prelude Lib.Int Lib.Host Model.Rwa.
 
 Definition f1_cfg : hostcfg := default_cfg 6312000.
-Definition f1_orc : oracle := mkOracle [0; 1; 2; 3]%N true true [].
+Definition f1_orc : addr -> oracle := fun _ => mkOracle [0; 1; 2; 3]%N true true [].
 (* nobody verified, compliance refuses everything *)
-Definition f1_closed : oracle := mkOracle [] false false [].
+Definition f1_closed : addr -> oracle := fun _ => mkOracle [] false false [].
 Definition f1_history : list call :=
-  [ mkCall (SetCompliance 3%N) [3%N] f1_orc;
-    mkCall (SetIdentityVerifier 3%N) [3%N] f1_orc;
+  [ mkCall (SetCompliance 50%N 3%N) [3%N] f1_orc;
+    mkCall (SetIdentityVerifier 60%N 3%N) [3%N] f1_orc;
     mkCall (Mint 0%N 100 3%N) [3%N] f1_orc;
     mkCall (Freeze 0%N 80 3%N) [3%N] f1_orc;            (* freeze 80 of 100 *)
     mkCall (Approve 0%N 2%N 1000 500) [0%N] f1_orc;
@@ -27,7 +27,7 @@ Lemma prefix_refuted :
     step_prefix hc s c = (s', Ok None) /\
     paused s = true /\ aflag s from = true /\ aflag s to = true /\
     bal s from - frozen s from < amt /\
-    idv_ok (c_orc c) from = false /\ idv_ok (c_orc c) to = false /\ o_can_transfer (c_orc c) = false /\
+    idv_ok (eff_orc s c) from = false /\ idv_ok (eff_orc s c) to = false /\ o_can_transfer (eff_orc s c) = false /\
     bal s' from < frozen s' from /\
     snd (step hc (run hc init cs) c) = Fail.
 Proof.
